@@ -1,12 +1,466 @@
 import JF.Model.Occupancy
-import Mathlib.Data.List.Basic
+import JF.Lemmas.Occupancy
+import JF.Lemmas.OccupancyInv
+import JF.Lemmas.PyArith
+import Mathlib.Tactic.FieldSimp
+import Mathlib.Tactic.Positivity
 /-!
 # C11 — The cell-occupancy bookkeeping always mirrors the true particle positions
+
+Model: `JF.Model.Occupancy` (`SingleActiveCellOccupancy.initialize / update / __getitem__ /
+yield_surplus / yield_active_cells`, the one-direction core of `CellBoundaryEventHandler`).
+
+The world the occupancy has to mirror is given by
+* `rel : UId → Bool`   — `u` is a unit on the cell level of the global state that passes the charge filter,
+* `cellOf : UId → Cell` — the cell that contains the *current* position of `u`.
+
+`OccInv rel cellOf s` is the property statement; `init_inv` / `update_inv` / `reach_inv` show that it
+holds at every leg of every history whose legs satisfy the two premises the mediator provides
+(non-active units do not move; when the identity of the active unit changes, the previous active
+unit is still inside its recorded cell), and that under it no error branch of `update` is taken.
+The premises themselves are what `boundary_*` (exact arithmetic) and the run-level oracle address.
+
+Scope — what is *not* proved here.  `reach_inv` is conditional on the premise `hmove` of every step.
+That the mediator's legs satisfy it ("no event is committed after the crossing time while the
+cell-boundary candidate is live", i.e. the scheduler returns the minimum and the cell-boundary
+tagger's candidate is fresh) belongs to the system model (C09 / C19) and is not formalised in this
+module; `boundary_pos` / `stays_in_cell_pos` / `boundary_neg_partial` give the kinematic half in exact
+arithmetic (the candidate time is the crossing time; before it the unit is in its cell; the event
+puts it into the neighbour), for a velocity with a single non-zero component.  The tie case (another
+event at exactly the crossing time that changes the active unit) and binary64 rounding of the time
+slice are outside these theorems; the run-level oracle checks the premise on every leg of real runs.
 -/
 namespace JF.C11
 open JF JF.Occ
 
-/-- a fresh object records nothing -/
-theorem empty_getItem (cap : Int) (c : Cell) : getItem (State.empty cap) c = [] := rfl
+/-!
+The definitions live in `JF/Lemmas/OccupancyInv.lean`; for reference:
+
+* `surAt s c`       the surplus list stored under cell `c` (`[]` without such a key);
+* `recCount s u c`  = `count u (occupants c) + count u (surAt s c)`;
+* `WF s`            unique surplus keys, no empty surplus list, `0 < cap → |occupants c| ≤ cap`;
+* `OccInv rel cellOf s` (**the property**):  `WF s`;  either no active unit is recorded
+  (`activeId = activeCell = none`) or `activeId = some a`, `activeCell = some (cellOf a)`, `rel a`;
+  and for all `u c`:  `recCount s u c = 1` if `rel u`, `u` is not the active unit and `c = cellOf u`,
+  and `= 0` otherwise.
+-/
+
+/-! ### `initialize` and `update` -/
+
+/-- **`initialize` establishes the property** for every duplicate-free list of units, every cap. -/
+theorem init_inv (cap : Int) (units : List UnitIn) (hnd : (units.map (·.id)).Nodup) :
+    OccInv (relOf units) (cellOfUnits units) (Occ.init cap units) := by
+  obtain ⟨hw, hr⟩ := empty_inv cap
+  have := foldl_inv units (State.empty cap) (fun _ => none) hw hr rfl rfl hnd (fun _ _ => rfl)
+  obtain ⟨h1, h2, h3, _, h5⟩ := this
+  refine ⟨h1, Or.inl ⟨h2, h3⟩, ?_⟩
+  intro u c
+  have := h5 u c
+  simp only [Occ.init] at this h2 ⊢
+  rw [this]
+  simp [h2]
+
+/-- **`update` preserves the property** for every new active unit (relevant or not, taken from the
+occupants or from the surplus, in the same or another cell, identity changed or not), and never
+raises.  Premises (what the mediator guarantees between two calls): every unit other than a
+*continuing* active unit is still in the cell it was in (`hmove`; for the previous active unit of a
+lifting this is "it has not left its recorded cell"), and the caller passes the true relevance and
+the true cell of the new active unit. -/
+theorem update_inv {rel : UId → Bool} {cellOf cellOf' : UId → Cell} {s : State} (new : UnitIn)
+    (h : OccInv rel cellOf s)
+    (hrel : new.relevant = rel new.id) (hcell : new.cell = cellOf' new.id)
+    (hmove : ∀ u, ¬(u = new.id ∧ s.activeId = some u) → cellOf' u = cellOf u) :
+    ∃ s', update s new = .ok s' ∧ OccInv rel cellOf' s' := by
+  unfold update
+  by_cases hid : s.activeId = some new.id
+  · have : (some new.id != s.activeId) = false := by simp [hid]
+    simp only [this, Bool.false_eq_true, if_false]
+    refine ⟨_, rfl, wf_of_fields h.wf rfl rfl rfl, ?_, ?_⟩
+    · rcases h.active with ⟨ha, _⟩ | ⟨a, ha, _, hra⟩
+      · rw [ha] at hid; cases hid
+      · rw [ha] at hid; cases hid
+        exact Or.inr ⟨new.id, ha, by simp [hcell], hra⟩
+    · intro u c
+      have := h.count u c
+      simp only [recCount, surAt] at this ⊢
+      rw [this]
+      by_cases hu : u = new.id
+      · subst hu; simp [hid]
+      · simp only [hmove u (fun hh => hu hh.1)]
+  · have : (some new.id != s.activeId) = true := by
+      simp only [bne_iff_ne, ne_eq]; exact fun hh => hid hh.symm
+    simp only [this, if_true]
+    have hall : ∀ u, cellOf' u = cellOf u := fun u => hmove u (fun hh => hid (hh.1 ▸ hh.2))
+    have hfun : cellOf' = cellOf := funext hall
+    subst hfun
+    obtain ⟨s1, he, hw1, hr1⟩ := reinsertOld_spec h
+    rw [he]
+    exact activate_inv new hw1 hr1 hrel hcell
+
+/-! ### every leg of every history -/
+
+/-- The legs of a run as the occupancy sees them: `initialize` on a duplicate-free list of units, then
+any number of `update` calls.  Between two calls the world may change (`cellOf ↦ cellOf'`) subject to
+the two premises of `update_inv`: only a *continuing* active unit changes its cell. -/
+inductive Reach (rel : UId → Bool) : State → (UId → Cell) → Prop
+  | init (cap : Int) (units : List UnitIn) (hnd : (units.map (·.id)).Nodup) (hrel : rel = relOf units) :
+      Reach rel (Occ.init cap units) (cellOfUnits units)
+  | step {s : State} {cellOf : UId → Cell} (new : UnitIn) (cellOf' : UId → Cell) (s' : State) :
+      Reach rel s cellOf → new.relevant = rel new.id → new.cell = cellOf' new.id →
+      (∀ u, ¬(u = new.id ∧ s.activeId = some u) → cellOf' u = cellOf u) →
+      update s new = .ok s' → Reach rel s' cellOf'
+
+/-- **Main theorem**: the property holds at every leg of every such history (any grid, any cap, any
+charge filter, any sequence of new active units). -/
+theorem reach_inv {rel : UId → Bool} {s : State} {cellOf : UId → Cell} (h : Reach rel s cellOf) :
+    OccInv rel cellOf s := by
+  induction h with
+  | init cap units hnd hrel => subst hrel; exact init_inv cap units hnd
+  | step new cellOf' s' _ hrel hcell hmove hupd ih =>
+    obtain ⟨s'', he, hinv⟩ := update_inv new ih hrel hcell hmove
+    rw [he] at hupd; cases hupd; exact hinv
+
+/-- … and the next `update` never ends in one of the error branches. -/
+theorem reach_update_ok {rel : UId → Bool} {s : State} {cellOf cellOf' : UId → Cell} (h : Reach rel s cellOf)
+    (new : UnitIn) (hrel : new.relevant = rel new.id) (hcell : new.cell = cellOf' new.id)
+    (hmove : ∀ u, ¬(u = new.id ∧ s.activeId = some u) → cellOf' u = cellOf u) :
+    ∃ s', update s new = .ok s' :=
+  let ⟨s', he, _⟩ := update_inv new (reach_inv h) hrel hcell hmove
+  ⟨s', he⟩
+
+/-! ### what the invariant says about the public answers -/
+
+section api
+variable {rel : UId → Bool} {cellOf : UId → Cell} {s : State}
+
+/-- whoever is listed under a cell (occupant or surplus) is a relevant non-active unit whose position
+is in that cell -/
+theorem recorded_sound (h : OccInv rel cellOf s) {u : UId} {c : Cell} (hp : 0 < recCount s u c) :
+    rel u = true ∧ s.activeId ≠ some u ∧ c = cellOf u := by
+  have hcnt := h.count u c
+  dsimp only at hcnt
+  by_cases hc : rel u = true ∧ s.activeId ≠ some u
+  · simp only [if_pos hc, Option.some.injEq] at hcnt
+    by_cases hcc : cellOf u = c
+    · exact ⟨hc.1, hc.2, hcc.symm⟩
+    · simp only [if_neg hcc] at hcnt; omega
+  · simp only [if_neg hc] at hcnt
+    simp at hcnt; omega
+
+theorem getItem_sound (h : OccInv rel cellOf s) {u : UId} {c : Cell} (hm : u ∈ getItem s c) :
+    rel u = true ∧ s.activeId ≠ some u ∧ c = cellOf u := by
+  apply recorded_sound h
+  have : 0 < (s.occupants c).count u := List.count_pos_iff.mpr hm
+  simp only [recCount]; omega
+
+theorem surplus_sound (h : OccInv rel cellOf s) {k : Cell} {l : List UId} (hm : (k, l) ∈ s.surplus)
+    {u : UId} (hu : u ∈ l) : rel u = true ∧ s.activeId ≠ some u ∧ k = cellOf u := by
+  apply recorded_sound h
+  have hg := Dict.get?_of_mem _ h.wf.keys_nodup hm
+  have : 0 < l.count u := List.count_pos_iff.mpr hu
+  simp only [recCount, surAt, hg, Option.getD_some]; omega
+
+theorem count_yieldSurplus (h : OccInv rel cellOf s) (u : UId) :
+    (yieldSurplus s).count u = (surAt s (cellOf u)).count u := by
+  apply Dict.count_values _ h.wf.keys_nodup
+  intro k l hm hk
+  by_contra hne
+  have hu : u ∈ l := List.count_pos_iff.mp (Nat.pos_of_ne_zero hne)
+  exact hk (surplus_sound h hm hu).2.2
+
+/-- every relevant non-active unit is recorded exactly once, and that under the cell containing its
+position -/
+theorem recorded_exactly_once (h : OccInv rel cellOf s) {u : UId} (hr : rel u = true)
+    (ha : s.activeId ≠ some u) :
+    (getItem s (cellOf u)).count u + (yieldSurplus s).count u = 1 ∧
+    ∀ c, c ≠ cellOf u → u ∉ getItem s c := by
+  constructor
+  · rw [count_yieldSurplus h]
+    have := h.count u (cellOf u)
+    simpa [recCount, hr, ha, getItem] using this
+  · intro c hc hm
+    exact hc (getItem_sound h hm).2.2
+
+/-- the active unit and irrelevant units are in no list -/
+theorem not_recorded (h : OccInv rel cellOf s) {u : UId} (hn : rel u = false ∨ s.activeId = some u) :
+    (∀ c, u ∉ getItem s c) ∧ u ∉ yieldSurplus s := by
+  have key : ∀ c, recCount s u c = 0 := by
+    intro c
+    rw [h.count u c]
+    rcases hn with hn | hn <;> simp [hn]
+  constructor
+  · intro c hm
+    have : 0 < (s.occupants c).count u := List.count_pos_iff.mpr hm
+    have := key c
+    simp only [recCount] at this; omega
+  · intro hm
+    have h1 : 0 < (yieldSurplus s).count u := List.count_pos_iff.mpr hm
+    rw [count_yieldSurplus h] at h1
+    have := key (cellOf u)
+    simp only [recCount] at this; omega
+
+/-- the active unit is reported with the cell containing its position -/
+theorem active_recorded (h : OccInv rel cellOf s) {a : UId} (ha : s.activeId = some a) :
+    yieldActiveCells s = [(some (cellOf a), some a)] ∧ rel a = true := by
+  rcases h.active with ⟨hn, _⟩ | ⟨a', ha', hc, hr⟩
+  · rw [hn] at ha; cases ha
+  · rw [ha'] at ha; cases ha
+    simp [yieldActiveCells, hc, ha', hr]
+
+/-- without a relevant active unit nothing is reported -/
+theorem no_active (h : OccInv rel cellOf s) (ha : s.activeId = none) : yieldActiveCells s = [] := by
+  rcases h.active with ⟨_, hc⟩ | ⟨a', ha', _, _⟩
+  · simp [yieldActiveCells, hc]
+  · rw [ha'] at ha; cases ha
+
+/-- no cell lists more occupants than the limit -/
+theorem cap_respected (h : OccInv rel cellOf s) (hc : 0 < s.cap) (c : Cell) :
+    ((getItem s c).length : Int) ≤ s.cap := h.wf.cap hc c
+
+end api
+
+/-! ### non-vacuity: a concrete history through all kinds of `update` -/
+
+/-- four units, unit 3 irrelevant, cap 1: units 0 and 1 share cell 1 (so 1 goes to the surplus) -/
+def exUnits : List UnitIn := [⟨0, true, 1⟩, ⟨1, true, 1⟩, ⟨2, true, 0⟩, ⟨3, false, 2⟩]
+
+example : OccInv (relOf exUnits) (cellOfUnits exUnits) (Occ.init 1 exUnits) :=
+  init_inv 1 exUnits (by decide)
+
+example : yieldSurplus (Occ.init 1 exUnits) = [1] ∧ getItem (Occ.init 1 exUnits) 1 = [0] := by decide
+
+/-- the state after an `update` that does not raise -/
+def upd! (s : State) (n : UnitIn) : State :=
+  match update s n with
+  | .ok s' => s'
+  | .error _ => s
+
+def ex0 : State := Occ.init 1 exUnits
+/-- activate the surplus unit 1 (cell 1) -/
+def ex1 : State := upd! ex0 ⟨1, true, 1⟩
+/-- it crosses into cell 2 (same identifier) -/
+def ex2 : State := upd! ex1 ⟨1, true, 2⟩
+/-- lifting to unit 0 (an occupant of cell 1); unit 1 is re-inserted under its recorded cell 2 -/
+def ex3 : State := upd! ex2 ⟨0, true, 1⟩
+/-- lifting to the irrelevant unit 3 -/
+def ex4 : State := upd! ex3 ⟨3, false, 2⟩
+
+/-- a history through all kinds of `update` satisfies the premises of `Reach.step` -/
+example : ∃ cellOf, Reach (relOf exUnits) ex4 cellOf ∧ ex4.activeId = none ∧ getItem ex4 2 = [1] ∧
+    getItem ex4 1 = [0] ∧ ex2.activeCell = some 2 ∧ yieldSurplus ex1 = [] := by
+  let c0 := cellOfUnits exUnits
+  let c1 : UId → Cell := fun u => if u = 1 then 2 else c0 u
+  have r0 : Reach (relOf exUnits) ex0 c0 := .init 1 exUnits (by decide) rfl
+  have r1 : Reach (relOf exUnits) ex1 c0 :=
+    .step (s := ex0) ⟨1, true, 1⟩ c0 ex1 r0 (by decide) (by decide) (fun _ _ => rfl) (by rfl)
+  have r2 : Reach (relOf exUnits) ex2 c1 :=
+    .step (s := ex1) ⟨1, true, 2⟩ c1 ex2 r1 (by decide) (by decide)
+      (by intro u hu; simp only [c1]; split
+          · rename_i h; subst h; exact absurd ⟨rfl, by decide⟩ hu
+          · rfl) (by rfl)
+  have r3 : Reach (relOf exUnits) ex3 c1 :=
+    .step (s := ex2) ⟨0, true, 1⟩ c1 ex3 r2 (by decide) (by decide) (fun _ _ => rfl) (by rfl)
+  have r4 : Reach (relOf exUnits) ex4 c1 :=
+    .step (s := ex3) ⟨3, false, 2⟩ c1 ex4 r3 (by decide) (by decide) (fun _ _ => rfl) (by rfl)
+  exact ⟨_, r4, by decide, by decide, by decide, by decide, by decide⟩
+
+/-- `update_inv` applied to a concrete leg: the cell crossing `ex1 → ex2` of the active unit 1 -/
+example : ∃ s', update ex1 ⟨1, true, 2⟩ = .ok s' ∧
+    OccInv (relOf exUnits) (fun u => if u = 1 then 2 else cellOfUnits exUnits u) s' := by
+  have r0 : Reach (relOf exUnits) ex0 (cellOfUnits exUnits) := .init 1 exUnits (by decide) rfl
+  have r1 : Reach (relOf exUnits) ex1 (cellOfUnits exUnits) :=
+    .step (s := ex0) ⟨1, true, 1⟩ _ ex1 r0 (by decide) (by decide) (fun _ _ => rfl) (by rfl)
+  refine update_inv ⟨1, true, 2⟩ (reach_inv r1) (by decide) (by decide) ?_
+  intro u hu
+  split
+  · rename_i h; subst h; exact absurd ⟨rfl, by decide⟩ hu
+  · rfl
+
+/-- The premise of `update_inv` is necessary: if the previous active unit has left its recorded cell
+without a cell-boundary event (here unit 1, recorded in cell 2, really in cell 0) when the active
+unit changes, `update` files it under the old cell and the property fails. -/
+example : ¬ OccInv (relOf exUnits) (fun u => if u = 1 then 0 else cellOfUnits exUnits u) ex3 := by
+  intro h
+  have := h.count 1 0
+  revert this
+  decide
+
+/-- the charge filter in the exact reading: a unit is relevant iff no charge is named or its charge is
+non-zero -/
+theorem isRelevant_rat (given : Bool) (q : ℚ) :
+    isRelevant Ops.rat given q = true ↔ (given = true → q ≠ 0) := by
+  cases given <;> simp [isRelevant]
+
+/-! ### the cell-boundary event in exact arithmetic (one direction of motion)
+
+These two theorems address the premise of `update_inv` / `Reach.step` ("the active unit is in its
+recorded cell until a cell-boundary event, and then in the neighbour"): the candidate time computed by
+`CellBoundaryEventHandler.send_event_time` is the exact crossing time, and `send_out_state` puts
+the unit on a point that `position_to_cell` maps to the neighbour. -/
+
+
+/-- **Cell-boundary event, positive direction, exact arithmetic.**  A unit at `x` inside cell `i`
+moving with `v > 0`: the scheduled time is positive, strictly before it the unit is still in cell
+`i`, the stored boundary is the neighbour's `cell_min`, which `position_to_cell` maps to the
+neighbour `(i+1) mod n` (through the periodic boundary too), and overwriting the coordinate by the
+boundary agrees with the time-sliced coordinate modulo the box length.
+(`hpos` excludes the one-cell direction with the unit exactly on `0`, where the time is `0`.) -/
+theorem boundary_pos (g : Grid) (i : ℕ) (hi : i < g.n) (x v bMax : ℚ)
+    (hx0 : g.cmin i ≤ x) (hx1 : x < g.cmin (i + 1)) (hv : 0 < v) (hpos : i + 1 = g.n → 0 < x) :
+    let r := timeToBoundary Ops.rat g.L x v (g.cmin ((i + 1) % g.n)) bMax
+    0 < r.1 ∧ (∀ τ, 0 ≤ τ → τ < r.1 → g.cmin i ≤ x + v * τ ∧ x + v * τ < g.cmin (i + 1)) ∧
+    r.2 = g.cmin ((i + 1) % g.n) ∧ g.idx r.2 = ((i + 1) % g.n : ℕ) ∧
+    (x + v * r.1 = r.2 ∨ x + v * r.1 = r.2 + g.L) := by
+  have hs := g.hside
+  have hidx : g.idx (g.cmin ((i + 1) % g.n)) = ((i + 1) % g.n : ℕ) :=
+    g.idx_eq le_rfl (by simp only [Grid.cmin]; push_cast; linarith)
+  have key : ∀ sep : ℚ, 0 < sep → x + sep = g.cmin (i + 1) →
+      0 < sep / v ∧ (∀ τ, 0 ≤ τ → τ < sep / v → g.cmin i ≤ x + v * τ ∧ x + v * τ < g.cmin (i + 1)) ∧
+      x + v * (sep / v) = x + sep := by
+    intro sep hsep he
+    refine ⟨div_pos hsep hv, ?_, by field_simp⟩
+    intro τ h0 h1
+    constructor
+    · nlinarith
+    · rw [lt_div_iff₀ hv] at h1; rw [← he]; linarith
+  simp only [timeToBoundary, rat_ofInt, Int.cast_zero, hv, if_true]
+  rcases Nat.lt_or_ge (i + 1) g.n with hlt | hge
+  · rw [Nat.mod_eq_of_lt hlt] at hidx ⊢
+    have hsep : 0 < g.cmin (i + 1) - x := by linarith
+    have hnot : ¬ g.cmin (i + 1) - x < 0 := by linarith
+    simp only [hnot, if_false]
+    obtain ⟨k1, k2, k3⟩ := key _ hsep (by ring)
+    exact ⟨k1, k2, trivial, hidx, Or.inl (by rw [k3]; ring)⟩
+  · have hin : i + 1 = g.n := by omega
+    have hmod : (i + 1) % g.n = 0 := by rw [hin]; exact Nat.mod_self _
+    rw [hmod] at hidx ⊢
+    have hx := hpos hin
+    have hc0 : g.cmin 0 = 0 := by simp [Grid.cmin]
+    have hL : g.cmin (i + 1) = g.L := by simp only [Grid.cmin, Grid.L, hin]
+    simp only [hc0, zero_sub, Left.neg_neg_iff, hx, if_true]
+    have hsep : 0 < -x + g.L := by rw [← hL]; linarith
+    obtain ⟨k1, k2, k3⟩ := key _ hsep (by rw [hL]; ring)
+    exact ⟨k1, k2, trivial, by simpa [hc0] using hidx, Or.inr (by rw [k3]; ring)⟩
+
+/-- Consequence for a leg of the run: any event committed strictly before the scheduled cell-boundary
+time finds the time-sliced coordinate `(x + v τ) % L` (`_time_slice_unit`) still in the recorded
+cell `i`. -/
+theorem stays_in_cell_pos (g : Grid) (i : ℕ) (hi : i < g.n) (x v bMax : ℚ)
+    (hx0 : g.cmin i ≤ x) (hx1 : x < g.cmin (i + 1)) (hv : 0 < v) (hpos : i + 1 = g.n → 0 < x)
+    (τ : ℚ) (h0 : 0 ≤ τ)
+    (h1 : τ < (timeToBoundary Ops.rat g.L x v (g.cmin ((i + 1) % g.n)) bMax).1) :
+    g.idx (pymod Ops.rat (x + v * τ) g.L) = i := by
+  obtain ⟨_, hb, _⟩ := boundary_pos g i hi x v bMax hx0 hx1 hv hpos
+  obtain ⟨b0, b1⟩ := hb τ h0 h1
+  have hs := g.hside
+  have hL : 0 < g.L := by
+    have : (0 : ℚ) < g.n := by exact_mod_cast g.hn
+    simp only [Grid.L]; positivity
+  have hle : g.cmin (i + 1) ≤ g.L := by
+    simp only [Grid.cmin, Grid.L]
+    have : ((i + 1 : ℕ) : ℚ) ≤ g.n := by exact_mod_cast hi
+    nlinarith
+  have hnn : 0 ≤ x + v * τ := le_trans (by simp only [Grid.cmin]; positivity) b0
+  have hid : pymod Ops.rat (x + v * τ) g.L = x + v * τ := by
+    rw [pymod_rat_pos _ _ hL]
+    have : ⌊(x + v * τ) / g.L⌋ = 0 := by
+      rw [Int.floor_eq_iff]
+      refine ⟨by simpa using div_nonneg hnn hL.le, ?_⟩
+      rw [div_lt_iff₀ hL]; simp; linarith
+    rw [this]; simp
+  rw [hid]
+  exact g.idx_eq b0 b1
+
+/-- **Cell-boundary event, negative direction, exact arithmetic.**  The handler aims at the lower
+neighbour's `cell_max`, for which only the constructor's post-condition is used
+(`position_to_cell(cell_max) = that cell`, hypotheses `hc0 hc1`).  The scheduled time is positive, the
+stored boundary is that `cell_max`, `position_to_cell` maps it to the neighbour `(i-1) mod n`
+(through the periodic boundary too), the overwritten coordinate agrees with the time-sliced one
+modulo the box length, and the unit is in cell `i` at least until it reaches the lower edge of its
+cell, which happens strictly before the event.
+`_partial`: between the lower edge of cell `i` and the neighbour's `cell_max` the exact reading has a
+sliver in which the unit is already outside cell `i` before the event fires; in binary64 the two
+numbers are adjacent floats (`CuboidCells.__init__` nudges them), so no representable position lies
+in between — that closing step is not formalised here (the run-level oracle checks it on every leg). -/
+theorem boundary_neg_partial (g : Grid) (i : ℕ) (hi : i < g.n) (hn2 : 2 ≤ g.n) (x v bMin cmaxPrev : ℚ)
+    (hx0 : g.cmin i ≤ x) (hx1 : x < g.cmin (i + 1)) (hv : v < 0)
+    (hc0 : g.cmin ((i + g.n - 1) % g.n) ≤ cmaxPrev) (hc1 : cmaxPrev < g.cmin ((i + g.n - 1) % g.n + 1)) :
+    let r := timeToBoundary Ops.rat g.L x v bMin cmaxPrev
+    0 < r.1 ∧ r.2 = cmaxPrev ∧ g.idx r.2 = ((i + g.n - 1) % g.n : ℕ) ∧
+    (x + v * r.1 = r.2 ∨ x + v * r.1 = r.2 - g.L) ∧
+    (∀ τ, 0 ≤ τ → τ ≤ (x - g.cmin i) / (-v) → g.idx (x + v * τ) = i) ∧
+    (x - g.cmin i) / (-v) < r.1 := by
+  have hs := g.hside
+  have hv' : 0 < -v := by linarith
+  have hnv : ¬ (0 : ℚ) < v := by linarith
+  have hidx : g.idx cmaxPrev = ((i + g.n - 1) % g.n : ℕ) := g.idx_eq hc0 hc1
+  have hstay : ∀ τ, 0 ≤ τ → τ ≤ (x - g.cmin i) / (-v) → g.idx (x + v * τ) = i := by
+    intro τ h0 h1
+    rw [le_div_iff₀ hv'] at h1
+    apply g.idx_eq
+    · nlinarith
+    · nlinarith
+  have key : ∀ sep : ℚ, x - g.cmin i < sep → 0 < sep / (-v) ∧ x + v * (sep / (-v)) = x - sep ∧
+      (x - g.cmin i) / (-v) < sep / (-v) := by
+    intro sep hsep
+    have : 0 < sep := by linarith
+    refine ⟨div_pos this hv', ?_, div_lt_div_of_pos_right hsep hv'⟩
+    have hne : v ≠ 0 := by linarith
+    field_simp
+    ring
+  simp only [timeToBoundary, rat_ofInt, Int.cast_zero, hnv, if_false]
+  rcases Nat.eq_zero_or_pos i with h0 | hp
+  · subst h0
+    have hj : (0 + g.n - 1) % g.n = g.n - 1 := by
+      rw [Nat.zero_add]; exact Nat.mod_eq_of_lt (by omega)
+    rw [hj] at hc0 hc1
+    have hjn : g.n - 1 + 1 = g.n := by omega
+    rw [hjn] at hc1
+    simp only [Grid.cmin] at hc0 hc1 hx0 hx1 ⊢
+    have hn1 : ((g.n - 1 : ℕ) : ℚ) = (g.n : ℚ) - 1 := by
+      rw [Nat.cast_sub (by omega)]; simp
+    have h2 : (2 : ℚ) ≤ g.n := by exact_mod_cast hn2
+    rw [hn1] at hc0
+    push_cast at hx1 hx0
+    have hneg : x - cmaxPrev < 0 := by nlinarith
+    simp only [hneg, if_true]
+    have hL : g.L = g.n * g.side := rfl
+    obtain ⟨k1, k2, k3⟩ := key (x - cmaxPrev + g.L) (by simp only [Grid.cmin]; push_cast; rw [hL]; linarith)
+    refine ⟨k1, trivial, hidx, Or.inr (by rw [k2]; ring), hstay, ?_⟩
+    simpa [Grid.cmin] using k3
+  · have hj : (i + g.n - 1) % g.n = i - 1 := by
+      have : i + g.n - 1 = (i - 1) + g.n := by omega
+      rw [this, Nat.add_mod_right]; exact Nat.mod_eq_of_lt (by omega)
+    rw [hj] at hc0 hc1
+    have hji : i - 1 + 1 = i := by omega
+    rw [hji] at hc1
+    have hnot : ¬ x - cmaxPrev < 0 := by linarith
+    simp only [hnot, if_false]
+    obtain ⟨k1, k2, k3⟩ := key (x - cmaxPrev) (by linarith)
+    exact ⟨k1, trivial, hidx, Or.inl (by rw [k2]; ring), hstay, k3⟩
+
+/-! non-vacuity of the two boundary theorems: three cells of side 1/3, unit in the last / first cell -/
+
+def exGrid : Grid := ⟨3, 1 / 3, by decide, by norm_num⟩
+
+example : let r := timeToBoundary Ops.rat exGrid.L (5 / 6) 2 (exGrid.cmin ((2 + 1) % 3)) 0
+    r = (1 / 12, 0) ∧ exGrid.idx r.2 = 0 := by
+  have := boundary_pos exGrid 2 (by decide) (5 / 6) 2 0 (by norm_num [Grid.cmin, exGrid])
+    (by norm_num [Grid.cmin, exGrid]) (by norm_num) (by intro _; norm_num)
+  refine ⟨?_, this.2.2.2.1⟩
+  norm_num [timeToBoundary, Grid.cmin, Grid.L, exGrid]
+
+example : exGrid.idx (pymod Ops.rat (5 / 6 + 2 * (1 / 24)) exGrid.L) = 2 :=
+  stays_in_cell_pos exGrid 2 (by decide) (5 / 6) 2 0 (by norm_num [Grid.cmin, exGrid])
+    (by norm_num [Grid.cmin, exGrid]) (by norm_num) (by intro _; norm_num) (1 / 24) (by norm_num)
+    (by norm_num [timeToBoundary, Grid.cmin, Grid.L, exGrid])
+
+example : let r := timeToBoundary Ops.rat exGrid.L (1 / 6) (-2) 0 (99 / 100)
+    0 < r.1 ∧ r.2 = 99 / 100 ∧ exGrid.idx r.2 = 2 :=
+  let h := boundary_neg_partial exGrid 0 (by decide) (by decide) (1 / 6) (-2) 0 (99 / 100)
+    (by norm_num [Grid.cmin, exGrid]) (by norm_num [Grid.cmin, exGrid]) (by norm_num)
+    (by norm_num [Grid.cmin, exGrid]) (by norm_num [Grid.cmin, exGrid])
+  ⟨h.1, h.2.1, h.2.2.1⟩
+
 
 end JF.C11
